@@ -235,6 +235,9 @@ Definition safe_op (o : op) : bool :=
   match o with
   | OUNew | OUBatchDel _ | OUBatchAdd _ _ | OUFin _ _ => true
   | OUAdd g | OUDel g => negb (special_type (g_owner g) (g_type g))
+  | OUDrop | OWOpen | OWCommit | OWDrop => true
+  | OWRr p r => negb (special_type p (rs_type r))
+  | OWRm p t => negb (special_type p t)
   | _ => false
   end.
 
@@ -266,28 +269,6 @@ Proof.
   - constructor; simpl; auto. intros w H. inversion H; subst. exact Hc.
 Qed.
 
-Lemma finish_built i s : s_built s = true -> finish_build i s = s.
-Proof. intro H. unfold finish_build. rewrite H. reflexivity. Qed.
-
-Lemma sinv_step z0 i s o : safe_op o = true -> sinv z0 s -> sinv z0 (step i s o).
-Proof.
-  intros Ho Hs. unfold step.
-  assert (E : (if is_history o then finish_build i s else s) = s).
-  { destruct (is_history o); [apply finish_built; apply (si_built _ _ Hs)|reflexivity]. }
-  rewrite E. destruct (sinv_misc z0 s Hs) as (Herr & Hfin & Hopen).
-  destruct o; simpl in Ho; try discriminate.
-  - destruct (sinv_misc z0 _ Hopen) as (_ & Hf & _). apply Hf.
-  - destruct (s_fin s); [apply Herr|]. apply sinv_on_work; auto. intro z. apply u_add_state.
-  - destruct (s_fin s); [apply Herr|]. apply sinv_on_work; auto. intro z. apply u_del_state.
-  - destruct (s_fin s); [apply Herr|]. destruct (s_work s); [|exact Hs].
-    destruct (if batch_delete_checks_serial then soa_serial_matches d n else true); [apply sinv_commit; exact Hs|apply Herr].
-  - destruct (s_fin s); [apply Herr|]. apply sinv_on_work; auto. intro z. apply u_soa_state.
-  - destruct (s_fin s); [apply Herr|].
-    assert (H1 : sinv z0 (commit false (on_work (u_soa ttl d) s))).
-    { apply sinv_commit. apply sinv_on_work; auto. intro z. apply u_soa_state. }
-    destruct (sinv_misc z0 _ H1) as (_ & Hf & _). apply Hf.
-Qed.
-
 (* rollback: committed values return, new nodes stay bare *)
 Lemma graft_state : forall w c, (wfu c -> wfu (graft w c)) /\ forall p, cspecial_at (graft w c) p = cspecial_at c p.
 Proof.
@@ -316,6 +297,34 @@ Proof.
   destruct Hs as [Hb [Hc1 Hc2] Hw]. constructor; simpl; auto.
   - destruct (graft_state w (s_comm s)) as [H1 H2]. split; [auto|]. intro p. rewrite H2. apply Hc2.
   - intros; discriminate.
+Qed.
+
+Lemma finish_built i s : s_built s = true -> finish_build i s = s.
+Proof. intro H. unfold finish_build. rewrite H. reflexivity. Qed.
+
+Lemma sinv_step z0 i s o : safe_op o = true -> sinv z0 s -> sinv z0 (step i s o).
+Proof.
+  intros Ho Hs. unfold step.
+  assert (E : (if is_history o then finish_build i s else s) = s).
+  { destruct (is_history o); [apply finish_built; apply (si_built _ _ Hs)|reflexivity]. }
+  rewrite E. destruct (sinv_misc z0 s Hs) as (Herr & Hfin & Hopen).
+  destruct o; simpl in Ho; try discriminate.
+  - destruct (sinv_misc z0 _ Hopen) as (_ & Hf & _). apply Hf.
+  - destruct (s_fin s); [apply Herr|]. apply sinv_on_work; auto. intro z. apply u_add_state.
+  - destruct (s_fin s); [apply Herr|]. apply sinv_on_work; auto. intro z. apply u_del_state.
+  - destruct (s_fin s); [apply Herr|]. destruct (s_work s); [|exact Hs].
+    destruct (if batch_delete_checks_serial then soa_serial_matches d n else true); [apply sinv_commit; exact Hs|apply Herr].
+  - destruct (s_fin s); [apply Herr|]. apply sinv_on_work; auto. intro z. apply u_soa_state.
+  - destruct (s_fin s); [apply Herr|].
+    assert (H1 : sinv z0 (commit false (on_work (u_soa ttl d) s))).
+    { apply sinv_commit. apply sinv_on_work; auto. intro z. apply u_soa_state. }
+    destruct (sinv_misc z0 _ H1) as (_ & Hf & _). apply Hf.
+  - destruct (sinv_misc z0 _ (sinv_rollback z0 s Hs)) as (_ & Hf & _). apply Hf.
+  - exact Hopen.
+  - apply sinv_on_work; auto. intro z. destruct (u_ops_state z) as [H _]. apply H.
+  - apply sinv_on_work; auto. intro z. destruct (u_ops_state z) as [_ H]. apply H.
+  - apply sinv_commit. exact Hs.
+  - apply sinv_rollback. exact Hs.
 Qed.
 
 (* the builder keeps labels unique *)
@@ -450,3 +459,19 @@ Example safe_example :
   query (run (zs_ex ++ us_ex)) [lfoo] T_A = query (run zs_ex') [lfoo] T_A /\
   query (run (zs_ex ++ us_ex)) [lb] T_A = query (run zs_ex') [lb] T_A.
 Proof. repeat split; try (vm_compute; reflexivity). vm_compute. discriminate. Qed.
+
+(* purely syntactic: two safe update histories of the same zone file that end
+   with the same RRsets answer identically (whatever nodes, markers and
+   intermediate versions each of them produced) *)
+Theorem safe_histories_confluent zs us us' : zone_file_only zs = true ->
+  forallb safe_op us = true -> forallb safe_op us' = true ->
+  (forall p, rrsets_at (run (zs ++ us)) p = rrsets_at (run (zs ++ us')) p) ->
+  cspecial_at (run zs) [] = None ->
+  forall q qt, query (run (zs ++ us)) q qt = query (run (zs ++ us')) q qt.
+Proof.
+  intros Hz Hu Hu' HR H0.
+  destruct (safe_history_state zs us' Hz Hu') as (Hw' & _ & Hc').
+  apply (safe_history_independent zs us (run (zs ++ us')) Hz Hu Hw' HR).
+  - intro p. symmetry. apply Hc'.
+  - rewrite Hc'. exact H0.
+Qed.
